@@ -71,6 +71,12 @@ l20:
 	goto l50
 l30:
 	/* (2) continued fraction */
+	// Far in the upper tail x^alpha e^-x underflows to 0 and the ratio is 1.
+	// The fraction below must not be entered there: its terms overflow for
+	// x beyond 1e100, the convergents become NaN and the loop never ends
+	if factor == 0 || math.IsInf(x, 1) {
+		return 1.0
+	}
 	a = 1 - p
 	b = a + x + 1
 	term = 0
